@@ -353,7 +353,7 @@ class Schedule:  # 0404
             return payload_set
 
         if payload[SZ_TOTAL_FRAGS] != _len(payload_set):  # sched has changed
-            return init_payload_set(payload)
+            payload_set = init_payload_set(payload)
 
         payload_set[payload[SZ_FRAG_NUMBER] - 1] = payload
         if None in payload_set or self._proc_payload_set(
